@@ -18,6 +18,7 @@ import (
 	"fmt"
 	"net/http"
 	"os"
+	"path/filepath"
 	"sort"
 	"strings"
 	"sync"
@@ -151,6 +152,9 @@ func auxCfgStart(args []string) {
 		return
 	}
 	res["values"] = cfgWalk(cfg)
+	if fb, err := os.ReadFile("var/config.json"); err == nil {
+		res["file_after_load"] = string(fb)
+	}
 	o := rig.StartOrigin(func(w http.ResponseWriter, q *http.Request, rec *rig.OriginReq) {
 		rig.ServeBody(w, 8, 1, 500, map[string]string{"Cache-Control": "max-age=60"})
 	})
@@ -165,6 +169,18 @@ func auxCfgStart(args []string) {
 	res["err1"], res["err2"] = fmt.Sprint(r1.Err), fmt.Sprint(r2.Err)
 	res["server_panics"] = p.Panics()
 	p.P.VerifRunCleanupCycle()
+	// the configuration in force can be shown (what GET /api/config does) and accepts a valid update
+	if _, err := json.Marshal(cfg); err != nil {
+		res["marshal_error"] = err.Error()
+	}
+	cur := cfg.Proxy.RetryOnInvalidRange.Read()
+	st, uerr := config.UpdatePartialFromConfig(cfg, map[string]any{"proxy": map[string]any{"retry_on_invalid_range": !cur}})
+	if uerr != nil || st == config.UpdateStatusFailed || cfg.Proxy.RetryOnInvalidRange.Read() == cur {
+		res["valid_update_refused"] = fmt.Sprintf("status=%v err=%v value-moved=%v", st, uerr, cfg.Proxy.RetryOnInvalidRange.Read() != cur)
+	}
+	if fb, err := os.ReadFile("var/config.json"); err == nil {
+		res["file_after"] = string(fb)
+	}
 }
 
 func c18docs(b core.Batch) []c18doc {
@@ -342,11 +358,187 @@ func c18snapDiff(a, b *c18snap, withEvents bool) []string {
 	return d
 }
 
+// ---- configuration files ---------------------------------------------------------------------------
+
+type c18file struct {
+	ID    string `json:"id"`
+	Class string `json:"class"`
+	What  string `json:"what"`
+	Text  string `json:"text"`
+}
+
+func c18files(b core.Batch) []c18file {
+	rng := b.Rand("c18-files")
+	def, _ := json.Marshal(config.NewDefault())
+	fresh := func() map[string]any {
+		var m map[string]any
+		json.Unmarshal(def, &m)
+		return m
+	}
+	// all leaf and section paths of the default document
+	var leaves, sections []string
+	var walk func(m map[string]any, p string)
+	walk = func(m map[string]any, p string) {
+		for k, v := range m {
+			if mm, ok := v.(map[string]any); ok {
+				sections = append(sections, p+k)
+				walk(mm, p+k+".")
+			} else {
+				leaves = append(leaves, p+k)
+			}
+		}
+	}
+	walk(fresh(), "")
+	sort.Strings(leaves)
+	sort.Strings(sections)
+	at := func(m map[string]any, dotted string) (map[string]any, string) {
+		parts := strings.Split(dotted, ".")
+		for _, q := range parts[:len(parts)-1] {
+			m = m[q].(map[string]any)
+		}
+		return m, parts[len(parts)-1]
+	}
+	var out []c18file
+	emit := func(class, what string, doc any) {
+		txt, _ := json.MarshalIndent(doc, "", "  ")
+		out = append(out, c18file{ID: fmt.Sprintf("f%d", len(out)), Class: class, What: what, Text: string(txt)})
+	}
+	emit("complete-default", "", fresh())
+	for _, path := range append(append([]string{}, leaves...), sections...) {
+		m := fresh()
+		mm, k := at(m, path)
+		delete(mm, k)
+		emit("property-missing", path, m)
+	}
+	for _, path := range leaves {
+		for _, bad := range []any{nil, 5, "x", true, []any{}, map[string]any{}, "", -1, 1.5} {
+			m := fresh()
+			mm, k := at(m, path)
+			if fmt.Sprintf("%T", mm[k]) == fmt.Sprintf("%T", bad) && bad != "" && bad != "x" {
+				continue // the same JSON type with an ordinary value: not a mutation
+			}
+			mm[k] = bad
+			emit("property-odd-value", fmt.Sprintf("%s=%v(%T)", path, bad, bad), m)
+		}
+	}
+	for _, sec := range append([]string{""}, sections...) {
+		m := fresh()
+		if sec == "" {
+			m["nope"] = 1
+		} else {
+			mm, k := at(m, sec)
+			mm[k].(map[string]any)["nope"] = 1
+		}
+		emit("unknown-key", sec+".nope", m)
+	}
+	for _, bad := range []map[string]any{{"cache.max_cache_size": "0B"}, {"cache.cleanup_interval": "0s"}, {"cache.cleanup_interval": "-5s"}, {"cache.memory.memory_budget_percent": 101}, {"cache.memory.memory_budget_percent": -1},
+		{"cache.type": "disk"}, {"cache.file.dir": ""}, {"proxy.listen": ""}, {"webserver.listen": ""}, {"proxy.ca_cert": ""}, {"cache.lock_shards": 0}, {"cache.lock_shards": -3}, {"logging.level": "LOUD"}} {
+		m := fresh()
+		for path, v := range bad {
+			mm, k := at(m, path)
+			mm[k] = v
+		}
+		emit("invalid-value", fmt.Sprint(bad), m)
+	}
+	for i := 0; i < b.Int("valid_files", 10); i++ {
+		m := fresh()
+		for path, v := range map[string]any{"cache.max_cache_size": fmt.Sprintf("%dK", 1+rng.IntN(100000)), "cache.cleanup_interval": fmt.Sprintf("%dm", 1+rng.IntN(600)), "cache.lock_shards": 1 + rng.IntN(2000),
+			"cache.memory.memory_budget_percent": rng.IntN(101), "proxy.cache_policy.default_max_age": fmt.Sprintf("%ds", rng.IntN(9000)), "logging.max_backups": rng.IntN(20), "cache.type": []string{"memory", "file"}[rng.IntN(2)]} {
+			if rng.IntN(2) == 0 {
+				mm, k := at(m, path)
+				mm[k] = v
+			}
+		}
+		emit("valid-changes", "", m)
+	}
+	full, _ := json.MarshalIndent(fresh(), "", "  ")
+	for _, n := range []int{0, 1, len(full) / 3, len(full) / 2, len(full) - 2, len(full) - 1} {
+		out = append(out, c18file{ID: fmt.Sprintf("f%d", len(out)), Class: "torn-file", What: fmt.Sprintf("first %d of %d bytes", n, len(full)), Text: string(full[:n])})
+	}
+	for _, t := range []string{"[]", "null", "5", "\"x\"", "{}", "{\"proxy\":{}}", "not json", string(full) + "}", string(full) + string(full)} {
+		out = append(out, c18file{ID: fmt.Sprintf("f%d", len(out)), Class: "not-a-configuration", What: core.Trunc(t, 30), Text: t})
+	}
+	return out
+}
+
+// c18RunFiles: each file is given to a fresh process that loads it (LoadOrDefault), starts a cache + proxy under
+// whatever configuration it was handed, serves two requests, shows the settings and applies one valid update.
+func c18RunFiles(b core.Batch, r *core.Recorder) {
+	wd, _ := os.Getwd()
+	self, _ := os.Executable()
+	files := c18files(b)
+	def := cfgWalk(config.NewDefault())
+	for _, f := range files {
+		if !r.Case(f.ID, f) {
+			continue
+		}
+		r.Eval(1)
+		r.Nontrivial(f.Class, f.What)
+		dir := filepath.Join(wd, "filecheck")
+		os.RemoveAll(dir)
+		os.MkdirAll(filepath.Join(dir, "var"), 0o755)
+		os.WriteFile(filepath.Join(dir, "var/config.json"), []byte(f.Text), 0o644)
+		out, serr, _ := c18spawnRaw(dir, self, "cfg-start")
+		var sres map[string]any
+		dec := json.NewDecoder(strings.NewReader(out))
+		dec.UseNumber()
+		dec.Decode(&sres)
+		cs := map[string]any{"id": f.ID, "class": f.Class, "what": f.What, "file": core.Trunc(f.Text, 1500)}
+		r.Count("files_loaded_by_a_fresh_process", 1)
+		sig := "C18:file:" + f.Class
+		if sres == nil {
+			kind, frame := core.ClassifyAbort(serr)
+			r.Violation("C18", sig+":process-died", fmt.Sprintf("loading the file (%s) and starting under the result kills the process: %s (%s)", f.What, core.Trunc(kind, 150), frame), cs, core.Trunc(serr, 4000))
+			continue
+		}
+		kept := fmt.Sprint(sres["file_after_load"]) == f.Text
+		if kept {
+			r.Count("files_accepted", 1)
+		} else {
+			r.Count("files_rejected_and_reset", 1)
+		}
+		verdict := "accepted"
+		if !kept {
+			verdict = "rejected-and-reset"
+		}
+		delete(sres, "file_after")
+		switch {
+		case sres["panic"] != nil || sres["error"] != nil:
+			r.Violation("C18", sig+":"+verdict+":cannot-start", fmt.Sprintf("file with %s was %s, and the process cannot start under the result: %v %v", f.What, verdict, sres["panic"], sres["error"]), cs, sres)
+		case func() bool { l, _ := sres["server_panics"].([]any); return len(l) > 0 }():
+			r.Violation("C18", sig+":"+verdict+":request-panics", "under the configuration handed out a request panics in the proxy", cs, sres)
+		case fmt.Sprint(sres["err1"]) != "<nil>" || fmt.Sprint(sres["err2"]) != "<nil>":
+			r.Violation("C18", sig+":"+verdict+":request-unanswered", fmt.Sprintf("under the configuration handed out a request is not answered: %v %v", sres["err1"], sres["err2"]), cs, sres)
+		case sres["marshal_error"] != nil || sres["valid_update_refused"] != nil:
+			r.Violation("C18", sig+":"+verdict+":cannot-be-shown-or-updated", fmt.Sprintf("file with %s was %s; under the configuration handed out the settings cannot be shown or a valid update is refused: %v %v", f.What, verdict, sres["marshal_error"], sres["valid_update_refused"]), cs, sres)
+		case !kept:
+			// a refused file is replaced by the defaults: the settings in force must be exactly the defaults
+			if vals, ok := sres["values"].(map[string]any); ok {
+				delete(vals, "proxy.upstream_default_https")
+				want := map[string]any{}
+				for k, v := range def {
+					if k != "proxy.upstream_default_https" {
+						want[k] = v
+					}
+				}
+				if diff := cfgDiff(want, vals); len(diff) > 0 {
+					r.Violation("C18", sig+":rejected-but-partly-in-force", fmt.Sprintf("the file was refused and reset, yet settings from it are in force: %s", strings.Join(diff, "; ")), cs, sres)
+				}
+			}
+		}
+	}
+	r.Sample(map[string]any{"part": "files", "files": len(files), "classes": "complete-default, property-missing (every leaf and section), property-odd-value (null / other JSON type / empty / negative per leaf), unknown-key (every level), invalid-value, valid-changes, torn-file, not-a-configuration"})
+}
+
 func c18Run(b core.Batch, r *core.Recorder) {
 	rig.QuietLogs()
 	wd, _ := os.Getwd()
 	var docs []c18doc
 	mode := b.Str("part", "docs")
+	if mode == "files" {
+		c18RunFiles(b, r)
+		return
+	}
 	switch mode {
 	case "docs":
 		docs = c18docs(b)
@@ -454,6 +646,15 @@ func c18Run(b core.Batch, r *core.Recorder) {
 					r.Violation("C18", "C18:accepted-update-changed-other-setting", fmt.Sprintf("the update %v also changed %s", d.Doc, line), cs, wit)
 				}
 			}
+			// ... also in the file: only the addressed settings may differ between the file before and after
+			if f0, f1 := c18flatJSON(res.S0.File), c18flatJSON(res.S1.File); f0 != nil && f1 != nil {
+				for _, line := range cfgDiff(f0, f1) {
+					prop := strings.SplitN(line, ":", 2)[0]
+					if !addr[prop] {
+						r.Violation("C18", "C18:accepted-update-changed-other-setting-in-file", fmt.Sprintf("the update %v also changed %s in the configuration file", d.Doc, line), cs, wit)
+					}
+				}
+			}
 			// the file must load to the same settings in a fresh process, and be startable
 			key := res.S1.FileSHA
 			if startChecked[key] || len(startChecked) >= b.Int("start_checks", 40) {
@@ -482,6 +683,8 @@ func c18Run(b core.Batch, r *core.Recorder) {
 				r.Violation("C18", "C18:accepted-unworkable:"+c18class(d)+":request-panics", "under the accepted configuration the first request panics in the proxy", cs, sres)
 			case fmt.Sprint(sres["err1"]) != "<nil>":
 				r.Violation("C18", "C18:accepted-unworkable:"+c18class(d)+":request-unanswered", fmt.Sprintf("under the accepted configuration a request is not answered: %v", sres["err1"]), cs, sres)
+			case sres["marshal_error"] != nil || sres["valid_update_refused"] != nil:
+				r.Violation("C18", "C18:accepted-unworkable:"+c18class(d)+":cannot-be-shown-or-updated", fmt.Sprintf("under the accepted configuration the settings cannot be shown or a valid update is refused: %v %v", sres["marshal_error"], sres["valid_update_refused"]), cs, sres)
 			default:
 				if vals, ok := sres["values"].(map[string]any); ok {
 					delete(vals, "proxy.upstream_default_https") // overwritten by the rig itself in the worker
@@ -503,6 +706,28 @@ func c18Run(b core.Batch, r *core.Recorder) {
 	r.Sample(map[string]any{"part": mode, "documents": len(docs), "first": docs[0], "classes": "valid, invalid-value, ill-typed, valid-plus-failing, unknown-key, wrong-shape, boundary, valid-with-write-failure"})
 }
 
+func c18flatJSON(text string) map[string]any {
+	var m map[string]any
+	dec := json.NewDecoder(strings.NewReader(text))
+	dec.UseNumber()
+	if text == "" || dec.Decode(&m) != nil {
+		return nil
+	}
+	out := map[string]any{}
+	var rec func(m map[string]any, prefix string)
+	rec = func(m map[string]any, prefix string) {
+		for k, v := range m {
+			if mm, ok := v.(map[string]any); ok {
+				rec(mm, prefix+k+".")
+			} else {
+				out[prefix+k] = fmt.Sprint(v)
+			}
+		}
+	}
+	rec(m, "")
+	return out
+}
+
 func c18spawnRaw(dir, self string, args ...string) (string, string, error) {
 	cmd := execCommand(self, append([]string{"aux"}, args...)...)
 	cmd.Dir = dir
@@ -522,6 +747,7 @@ func c18Plan(tier string, seed int64) []core.Batch {
 		{Name: "docs-a", TimeoutS: 1800, Args: map[string]any{"part": "docs", "n": n, "start_checks": sc}},
 		{Name: "docs-b", TimeoutS: 1800, Args: map[string]any{"part": "docs", "n": n, "start_checks": sc}},
 		{Name: "writefault", TimeoutS: 1800, Args: map[string]any{"part": "writefault", "stride": stride}},
+		{Name: "files", TimeoutS: 1800, Args: map[string]any{"part": "files", "valid_files": n / 4}},
 	}
 }
 
@@ -532,11 +758,11 @@ func init() {
 		ID:    "C18",
 		Level: "fault_enumeration",
 		Rule: "update documents of classes valid (random subsets of 10 settings), invalid-value (10 forms), ill-typed (10 forms), valid-plus-failing (6 forms; Go's map order decides what is staged first, so they are repeated), unknown-key / empty / wrong-shape (8 forms), boundary (12 forms: lock_shards 0/-3/1, budget 0/100, 1B, 1ns, cache type switches, negative backups, default_max_age 0/-1h) applied one after the other to a live worker process (real cache + janitor + proxy, a recorder subscribed to every property); " +
-			"snapshots before/after each (all effective values, file bytes, limits the cache enforces, janitor interval, notifications). Accepted configurations (distinct files, capped) are loaded by a fresh process which starts a cache + proxy and serves two requests. Write failures: RLIMIT_FSIZE = n for n swept over the file length. Non-trivial = distinct (class, document, failure point).",
+			"snapshots before/after each (all effective values, file bytes, limits the cache enforces, janitor interval, notifications). Accepted configurations (distinct files, capped) are loaded by a fresh process which starts a cache + proxy and serves two requests. Write failures: RLIMIT_FSIZE = n for n swept over the file length. Configuration files: the default document with every leaf / section removed in turn, every leaf set to null / another JSON type / empty / negative, unknown keys at every level, invalid values, valid changes, torn and non-configuration files, each loaded by a fresh process that must then start, serve two requests, show its settings and accept one valid update (a refused file must leave exactly the defaults in force). Non-trivial = distinct (class, document, failure point).",
 		Assumptions: []string{"a 5xx answer under an accepted configuration is C09's subject; only panics, process death and unanswered requests make a configuration unworkable here", "settling time of 25 ms for asynchronous listeners before the after-snapshot"},
 		Plan:        c18Plan,
 		Run:         c18Run,
 		Parallel:    3,
-		Floors:      map[string]map[string]int64{"quick": {"rejected_updates_checked": 100, "accepted_updates_checked": 100, "start_checks": 20}, "thorough": {"rejected_updates_checked": 5000, "accepted_updates_checked": 5000, "start_checks": 200}},
+		Floors:      map[string]map[string]int64{"quick": {"rejected_updates_checked": 100, "accepted_updates_checked": 100, "start_checks": 20, "files_loaded_by_a_fresh_process": 150, "files_accepted": 10, "files_rejected_and_reset": 50}, "thorough": {"rejected_updates_checked": 5000, "accepted_updates_checked": 5000, "start_checks": 200, "files_loaded_by_a_fresh_process": 300, "files_accepted": 50, "files_rejected_and_reset": 50}},
 	})
 }
